@@ -1881,6 +1881,10 @@ const pessimisticRollbackMaxBackoff = 20000
 // Pessimistic locks on specified keys with its forUpdateTS <= specifiedForUpdateTS will be unlocked. If 0 is passed
 // to specifiedForUpdateTS, the current forUpdateTS of the current transaction will be used.
 func (txn *KVTxn) asyncPessimisticRollback(ctx context.Context, keys [][]byte, specifiedForUpdateTS uint64) *sync.WaitGroup {
+	// The rollback outlives the call that triggers it (LockKeys, RetryAggressiveLocking, Commit): it must not be
+	// cancelled when the caller cancels that call's context after the call has returned, otherwise the locks are left
+	// behind until their TTL expires. Keep the values of the context (request source, interceptors) only.
+	ctx = context.WithoutCancel(ctx)
 	// Clone a new committer for execute in background.
 	committer := &twoPhaseCommitter{
 		store:       txn.committer.store,
